@@ -30,7 +30,11 @@ func check(run *ev.Run, c encx.Cfg, enc zapcore.Encoder, e encx.Ent, p encx.Plac
 	desc := func() string { return fmt.Sprintf("config{%s} entry{%s} fields %s", c, e, describe(p)) }
 	out, pv := encx.Encode(enc, e.Entry(), p, len(p.With) > 0)
 	if pv != nil {
-		run.Report(keyPrefix+":panic:"+fmt.Sprint(pv), desc()+": "+fmt.Sprint(pv), desc())
+		cls := fmt.Sprint(pv)
+		if i := strings.IndexAny(cls, ":("); i > 0 {
+			cls = cls[:i]
+		}
+		run.Report(keyPrefix+":abnormal:"+cls, desc()+": "+fmt.Sprint(pv), desc())
 		return
 	}
 	if len(local) < 200000 {
@@ -41,6 +45,9 @@ func check(run *ev.Run, c encx.Cfg, enc zapcore.Encoder, e encx.Ent, p encx.Plac
 		sep = "\t"
 	}
 	cols := c.ConsoleColumns(e)
+	if e.Message == "" && c.MessageKey != "" && len(cols) == 1 {
+		return // the line's only column is empty: whether a separator precedes the fields is not determined by the statement
+	}
 	prefix := strings.Join(cols, sep)
 	line := string(out)
 	fail := func(class, msg string) {
@@ -121,11 +128,7 @@ func main() {
 		levels = append(levels, zapcore.DebugLevel, zapcore.FatalLevel, zapcore.Level(-128))
 	}
 	var ents []encx.Ent
-	for _, e := range encx.EntVariants(levels) {
-		if e.Message != "" { // an empty column value makes "joined by the separator" ambiguous (see assumptions)
-			ents = append(ents, e)
-		}
-	}
+	ents = append(ents, encx.EntVariants(levels)...) // incl. empty messages: the message column is present whenever its key is set
 	leaves := encx.Leaves(true)
 	var dur *encx.Spec
 	for _, lf := range leaves {
@@ -271,7 +274,7 @@ func main() {
 		merge(local)
 	})
 	run.Assume = []string{
-		"configuration product as in C01 (12320 key/sub-encoder combinations incl. nil and no-op) x entry variants x separators {default, |, space, ::, multi-byte} x line endings; messages and function names are non-empty (an empty column value makes the 'joined by the separator' reading ambiguous)",
+		"configuration product as in C01 (12320 key/sub-encoder combinations incl. nil and no-op) x entry variants x separators {default, |, space, ::, multi-byte} x line endings; messages may be empty (the message column is present whenever its key is set) except where it would be the line's only column; function names are non-empty (whether an empty function name is 'a value' is not determined)",
 		"a nil or no-op sub-encoder yields no column; a nil name encoder falls back to the full name (documented)",
 		"sequences of <= max_tree_nodes reflected values (encodable / unencodable / failing json.Marshaler / array that carries on after unencodable elements) under zap's default reflection encoder and under a user-supplied streaming NewReflectedEncoder that fails after partial output",
 		"the field object is compared as a decoded tree (whitespace-insensitive) with the same reference tree as C02",
